@@ -98,11 +98,13 @@ ParseKL(h, off, acc) ==
 RECURSIVE BeforeEOL(_, _)
 BeforeEOL(l, i) == IF i > Len(l) \/ l[i][1] = 0 THEN <<>> ELSE << <<l[i][1], l[i][2]>> >> \o BeforeEOL(l, i + 1)
 
-KLLaw(h, list) ==
+\* padzero: the padding is the serializer's own (always for IPv4; for TCP unless the layer carries an explicit
+\* non-zero Padding field, which SerializeTo copies behind the options)
+KLLaw(h, list, padzero) ==
   LET p == ParseKL(h, 20, <<>>) IN
   IF ~p.ok THEN "options-malformed"
   ELSE IF p.opts # BeforeEOL(list, 1) THEN "option-order"
-  ELSE IF p.eol >= 0 /\ ~AllZero(h, p.eol) THEN "padding-not-zero"
+  ELSE IF padzero /\ p.eol >= 0 /\ ~AllZero(h, p.eol) THEN "padding-not-zero"
   ELSE "ok"
 
 IPv4Law(h, after, list) ==
@@ -111,14 +113,14 @@ IPv4Law(h, after, list) ==
   ELSE IF n % 4 # 0 THEN "options-not-padded-to-4"
   ELSE IF (B(h, 0) % 16) * 4 # n THEN "ihl"
   ELSE IF n + after <= 65535 /\ U16(h, 2) # n + after THEN "total-length"
-  ELSE KLLaw(h, list)
+  ELSE KLLaw(h, list, TRUE)
 
-TCPLaw(h, after, list) ==
+TCPLaw(h, after, list, padzero) ==
   LET n == Len(h) IN
   IF n < 20 \/ n > 60 THEN "header-length"
   ELSE IF n % 4 # 0 THEN "options-not-padded-to-4"
   ELSE IF (B(h, 12) \div 16) * 4 # n THEN "data-offset"
-  ELSE KLLaw(h, list)
+  ELSE KLLaw(h, list, padzero)
 
 UDPLaw(h, after, jumbo) ==
   IF Len(h) # 8 THEN "header-length"
@@ -163,8 +165,11 @@ TLVLaw(h, list) ==
   ELSE IF B(h, 1) # n \div 8 - 1 THEN "hdr-ext-len"
   ELSE LET p == ParseTLV(h, 2, <<>>) IN
        IF ~p.ok THEN "tlv-overrun"
-       ELSE IF \E i \in 1..Len(p.opts) : p.opts[i][1] = 1 /\
-                  \E j \in 1..p.opts[i][2] : B(h, p.opts[i][3] + 1 + j) # 0 THEN "padn-not-zero"
+       \* PadN options the serializer inserts are zero; a PadN entry of the layer's own list is data and is
+       \* copied as it is (a decoded layer may carry one with non-zero bytes)
+       ELSE IF Cardinality({i \in 1..Len(p.opts) : p.opts[i][1] = 1 /\
+                  \E j \in 1..p.opts[i][2] : B(h, p.opts[i][3] + 1 + j) # 0})
+               > Cardinality({i \in 1..Len(list) : list[i][1] = 1}) THEN "padn-not-zero"
        ELSE LET w == NoPads(p.opts)
                 l == NoPads(list) IN
             IF TL(w) # TL(l) THEN "option-order"
@@ -280,7 +285,7 @@ RoutingLaw(h) == IF Len(h) < 8 \/ Len(h) % 8 # 0 THEN "length-not-multiple-of-8"
 \* one layer of a Ser event: [t, hdr, after, trailer, list, f]
 LayerLaw(x) ==
   CASE x.t = "IPv4" -> IPv4Law(x.hdr, x.after, x.list)
-    [] x.t = "TCP" -> TCPLaw(x.hdr, x.after, x.list)
+    [] x.t = "TCP" -> TCPLaw(x.hdr, x.after, x.list, x.f.padzero)
     [] x.t = "UDP" -> UDPLaw(x.hdr, x.after, x.f.jumbo)
     [] x.t = "IPv6" -> IPv6Law(x.hdr, x.after, x.list)
     [] x.t \in {"IPv6HopByHop", "IPv6Destination"} -> TLVLaw(x.hdr, x.list)
